@@ -273,6 +273,11 @@ def gen_computer(r, rate=None, si=False, corner=None):
     # all four parities of (frame length, frame shift) in samples occur (8 kHz: 200/80, 41/16, 50/25, 80/25, 41/9)
     L_ms, S_ms = r.choice([(25, 10), (20, 10), (10, 5), (12.5, 5), (5.125, 2), (8, 8), (6.25, 3.125), (25, 10),
                            (10, 3.125), (5.125, 1.125), (10, 3.125)])
+    wide = r.random() < 0.2
+    if wide:
+        # frames shorter than the shift (legal: "the algorithm works when the shift exceeds the frame length"): the tail of
+        # an utterance can then hold a whole frame more than the (len + shift//2)//shift frames that are computed
+        L_ms, S_ms = r.choice([(4, 10), (2.5, 10), (5.125, 12.5), (8, 10)])
     cfg = {"name": "stft", "bank": bank, "frame_length_ms": L_ms, "frame_shift_ms": S_ms,
            "use_log": r.random() < 0.7, "use_power": r.random() < 0.5}
     u = r.random()
@@ -280,7 +285,7 @@ def gen_computer(r, rate=None, si=False, corner=None):
         cfg["frame_style"] = "causal"
     elif u < 0.8:
         cfg["frame_style"] = "centered"
-        if r.random() < 0.5:
+        if r.random() < 0.5 and not wide:
             cfg["kaldi_shift"] = True
     if r.random() < 0.3:
         cfg["include_energy"] = True
@@ -349,6 +354,8 @@ def gen_lengths(r, L, S, k):
     """utterance lengths: around the no-frame limit, around one frame, a few frames"""
     pool = [L // 2 - 1, L // 2, L // 2 + 1, L // 2 + 2, (L + 1) // 2, L - 1, L, L + 1, S // 2, S, 1, 2,
             L + S // 2, (L * 3) // 5, (L * 7) // 10, 2 * S, 3 * L + 7, 10 * S + 3]
+    if S > L:
+        pool += [2 * S + L // 2 + 1, 2 * S + L, 3 * S + L + 1, S + (S + 1) // 2 - 1, 4 * S + (L + S // 2) // 2]
     out = []
     for _ in range(k):
         u = r.random()
@@ -923,6 +930,8 @@ def torch_gen_case(ctx, I, idx):
         comp, L, S = frame_params(I, comp_cfg)
         if si:
             L = 4 * S
+        elif S > L:
+            ctx.count("generator:shift>frame-length")
     nutt = r.choice([1, 2, 3, 4, 5])
     lens = gen_lengths(r, L, S, nutt)
     if si:
@@ -947,6 +956,16 @@ def torch_gen_case(ctx, I, idx):
         utts.append(dict(id="%s%d" % (r.choice(["utt", "a.b-", "X_"]), k), shape=shape, nchan=nchan, n=n, kind=kind,
                          sig_seed=r.randrange(1 << 30), amp=r.choice([30, 300, 20000]), space_in_path=sp,
                          missing=r.random() < 0.03))
+    post_cfg = gen_post(r)
+    if no_comp and r.random() < 0.6:
+        # raw storage of float64 recordings riding on a large offset (a pressure / DC-coupled sensor: 1013.25 +- 0.01): the
+        # post-processors see the samples in full precision and only the stored result is rounded to float32
+        for u_ in utts:
+            if u_["kind"] == "npy":
+                u_["offset"] = True
+        if not post_cfg:
+            post_cfg = [r.choice(["cmvn", {"name": "deltas", "num_deltas": 1}])]
+        ctx.count("generator:raw-float64-on-offset")
     if r.random() < 0.3:
         r.shuffle(utts)
     if multi:
@@ -967,7 +986,7 @@ def torch_gen_case(ctx, I, idx):
     bad = None
     if r.random() < 0.06:
         bad = r.choice(["one-field", "duplicate"])
-    return dict(tool="torch", idx=idx, computer=comp_cfg, pre=gen_pre(r), post=gen_post(r), channel=channel,
+    return dict(tool="torch", idx=idx, computer=comp_cfg, pre=gen_pre(r), post=post_cfg, channel=channel,
                 seed=r.choice([None, 0, 0, 7, 12345]), utts=utts, manifest=manifest, mapfmt=mapfmt, bad=bad,
                 prefix=r.choice(["", "", "feat_"]), suffix=r.choice([None, None, ".feat.pt"]),
                 syntax=[r.choice(["inline", "json", "yaml"]) for _ in range(3)], init_seed=r.randrange(1 << 30),
@@ -984,7 +1003,11 @@ def torch_materialise(I, case, d):
         if u["shape"] == "1d":
             sig = sig[0]
         base = os.path.join(d, "raw dir" if u["space_in_path"] else "", "s%d" % k)
-        if u["kind"] == "npy":
+        if u["kind"] == "npy" and u.get("offset"):
+            path = base + ".npy"
+            sig = 1013.25 + 0.01 * np.random.RandomState(u["sig_seed"]).randn(*sig.shape)
+            np.save(path, sig)
+        elif u["kind"] == "npy":
             path = base + ".npy"
             np.save(path, sig.astype(np.float32 if k % 2 else np.float64))
         elif u["kind"] == "pt":
@@ -1808,6 +1831,9 @@ def check_plans(ctx, I, n):
     for style, kaldi in (("causal", False), ("centered", False), ("centered", True)):
         for (Lms, Sms) in ((25, 10), (5, 1), (5.125, 2), (3, 3), (2.5, 0.5), (5, 1.125), (5.125, 1.125)):  # all parities of (L, S)
             cfgs.append((style, kaldi, Lms, Sms))
+        if not kaldi:
+            # frames shorter than the shift: the tail of a signal can hold a whole frame beyond the (N + S//2)//S computed
+            cfgs += [(style, kaldi, 4, 10), (style, kaldi, 2.5, 7.125)]
     per = max(8, n // len(cfgs))
     for (style, kaldi, Lms, Sms) in cfgs:
         cfg = {"name": "stft", "bank": {"name": "fbank", "num_filts": 3, "sampling_rate": 8000},
@@ -1816,8 +1842,11 @@ def check_plans(ctx, I, n):
         pt = PyTorchSTFTFrameComputer.from_stft_frame_computer(comp)
         L, S = comp.frame_length, comp.frame_shift
         ns = {0, 1, L // 2 - 1, L // 2, L // 2 + 1, (L + 1) // 2, L - 1, L, L + 1, (3 * L) // 5, (3 * L) // 5 + 1, 2 * L}
-        while len(ns) < min(per, 3 * L):
-            ns.add(r.randint(0, 3 * L))
+        top = 3 * L if S <= L else 3 * S + L
+        if S > L:
+            ns |= {2 * S + L // 2 + 1, 2 * S + L, S + (S + 1) // 2 - 1, S + L, (S + 1) // 2 - 1, (S + 1) // 2}
+        while len(ns) < min(per, top):
+            ns.add(r.randint(0, top))
         for N in sorted(ns):
             if N < 0:
                 continue
